@@ -620,3 +620,60 @@ package bitcoin_reader
 // sets it in the same critical section, every later call finds it true and sends nothing.
 //@ static monotone-flag BlockDownloader.isCancelled, BlockDownloader.isComplete, BlockDownloader.isStarted : none [C16]
 //@ static writers BlockManager.currentIsComplete : (*BlockManager).processRequest, (*BlockManager).markBlockRequestComplete [C16]
+
+// Block synchronisation (C05). prevOf: the previous-block hash of the header that hashes to h (a function of h,
+// as the repository reports it). processedBlock: whether the block-tx store has an entry for h; within one round the
+// store is treated as not changing under the reader (assumption).
+//@ ufunc prevOf(h bitcoin.Hash32) bitcoin.Hash32
+//@ ufunc processedBlock(h bitcoin.Hash32) bool
+//@ iface github.com/tokenized/bitcoin_reader.HeaderRepository.LastHash
+//@   params repo
+//@   modifies nothing
+//@ iface github.com/tokenized/bitcoin_reader.HeaderRepository.PreviousHash
+//@   params repo, hash
+//@   ensures result0 != nil ==> *result0 == prevOf(hash)
+//@   modifies nothing
+//@ iface github.com/tokenized/bitcoin_reader.HeaderRepository.Hash
+//@   params repo, ctx, height
+//@   modifies nothing
+//@ iface github.com/tokenized/bitcoin_reader.BlockTxManager.FetchBlockTxIDs
+//@   params b, ctx, blockHash
+//@   ensures result2 == nil ==> result1 == processedBlock(blockHash)
+//@   modifies nothing
+
+// AddRequest queues exactly one request carrying the given hash and height (none once the queue is closed).
+//@ func (*BlockManager).AddRequest
+//@   requires m != nil && m.requests != nil && !closed(m.requests)
+//@   ensures [C05.request-logged] !old(m.requestsClosed) ==> sent(m.requests) == old(sent(m.requests)) + 1 && chanlog(m.requests, old(sent(m.requests))) != nil && chanlog(m.requests, old(sent(m.requests))).hash == hash && chanlog(m.requests, old(sent(m.requests))).height == height && result0 != nil && result1 != nil
+//@   ensures [C05.closed-queue] old(m.requestsClosed) ==> sent(m.requests) == old(sent(m.requests)) && result0 == nil
+//@   ensures !closed(m.requests)
+//@   modifies m.requestLock, chanof(m.requests)
+
+// synchronizeBlocks: the requests queued by one round are contiguous ascending heights linked by previous-block
+// hashes, none of them recorded as processed, none below the configured start height.
+//@ func (*NodeManager).synchronizeBlocks
+//@   requires m != nil && m.headers != nil && m.config != nil && m.blockTxManager != nil
+//@   requires m.blockManager != nil ==> m.blockManager.requests != nil && !closed(m.blockManager.requests) && !m.blockManager.requestsClosed
+//@   let q = m.blockManager.requests
+//@   ensures [C05.not-below-start] sent(q) > old(sent(q)) ==> chanlog(q, old(sent(q))).height >= m.config.StartBlockHeight
+//@   ensures [C05.ascending-contiguous] forallv(n, int, old(sent(q)) < n && n < sent(q) ==> chanlog(q, n).height == chanlog(q, n-1).height + 1 && prevOf(chanlog(q, n).hash) == chanlog(q, n-1).hash)
+//@   ensures [C05.never-processed] forallv(n, int, old(sent(q)) <= n && n < sent(q) ==> !processedBlock(chanlog(q, n).hash))
+//@   modifies m.blockManagerLock, allof(BlockManager.requestLock), allchans(*downloadRequest), allchans(interface{}), allchans(error)
+//@   loop 1
+//@     invariant len(hashes) >= 1 && hashes[0] == hash && height == lastHeight - (len(hashes) - 1) && sent(q) == old(sent(q))
+//@     invariant forall(k, 1, len(hashes), prevOf(hashes[k]) == hashes[k-1])
+//@     invariant forall(k, 0, len(hashes), !processedBlock(hashes[k]))
+//@     invariant height >= m.config.StartBlockHeight
+//@   loop 2
+//@     modifies allof(BlockManager.requestLock), allchans(*downloadRequest), allchans(interface{}), allchans(error)
+//@     invariant (-1 <= rangeindex && rangeindex < len(hashes)) || (len(hashes) == 0 && rangeindex == -1)
+//@     invariant blockManager == m.blockManager && blockManager != nil && !blockManager.requestsClosed && !closed(q) && q == blockManager.requests
+//@     invariant sent(q) == old(sent(q)) + rangeindex + 1 && height == startHeight + rangeindex + 1
+//@     invariant forall(k, 1, len(hashes), prevOf(hashes[k]) == hashes[k-1]) && forall(k, 0, len(hashes), !processedBlock(hashes[k])) && startHeight >= m.config.StartBlockHeight
+//@     invariant rangeindex >= 0 ==> chanlog(q, sent(q) - 1).hash == hashes[rangeindex] && chanlog(q, sent(q) - 1).height == startHeight + rangeindex
+//@     invariant sent(q) > old(sent(q)) ==> chanlog(q, old(sent(q))).height >= m.config.StartBlockHeight
+//@     invariant forallv(n, int, old(sent(q)) < n && n < sent(q) ==> chanlog(q, n).height == chanlog(q, n-1).height + 1 && prevOf(chanlog(q, n).hash) == chanlog(q, n-1).hash)
+//@     invariant forallv(n, int, old(sent(q)) <= n && n < sent(q) ==> !processedBlock(chanlog(q, n).hash))
+//@   loop 3
+//@     modifies allchans(interface{}), allchans(error)
+//@     invariant sent(q) == atentry(sent(q)) && !closed(q) && complete == atentry(complete) && abort == atentry(abort)
